@@ -331,14 +331,15 @@ def run_sync_scenario(case):
                         torn_pos = None
                         if mode == "kill-mid" and ptype == "kill":
                             # the call that was cut is the event logged right before the injection record of the killed run
-                            prev = None
-                            for e in ev2:
+                            # (other threads' events can sit in between: look back for the last write on the same path)
+                            for i_, e in enumerate(ev2):
                                 if e.kind == "I" and e.action == "kill-mid":
-                                    if prev is not None and prev.cls == "parity" and prev.op == "write":
-                                        torn_pos = prev.off // c_int.blocksize
+                                    for prev in reversed(ev2[max(0, i_ - 200):i_]):
+                                        if prev.kind == "E" and prev.op == "write" and prev.path == e.path:
+                                            if prev.cls == "parity":
+                                                torn_pos = prev.off // c_int.blocksize
+                                            break
                                     break
-                                if e.kind == "E":
-                                    prev = e
                         sm = c_int.stripe_map()
                         reasons = {}
                         for p_ in pr:
